@@ -14,6 +14,7 @@ func init() { register("C04", checkC04) }
 
 func checkC04(c *Ctx) {
 	c.Explanation = "Decides the structure of name/tag derivation: (O1) fullyQualifiedName returns its argument when the prefix is empty and otherwise prefix + separator + name in that order; (O2) the child scope built by the registry takes every field from its stated source (prefix: the computed prefix; separator, sanitizer, reporters, default buckets, registry, bucket cache, test flag: the parent; tags: mergeRightTags(parent.tags, copyAndSanitizeMap(given tags))), Tagged passes the scope's own prefix and its argument, SubScope passes fullyQualifiedName(Sanitizer.Name(argument)) and no tags; (O3) in mergeRightTags the entries of the right map are written after those of the left onto a fresh map and the early returns hand back the non-empty side; the registry key writer searches the maps from the rightmost; (O4) scope.tags is assigned only from copyAndSanitizeMap / mergeRightTags, copyAndSanitizeMap returns a fresh map filled from its argument, every map update or delete on a string map in the library targets a map made in the same function or a field of an object under construction, and prefix/separator/tags are written only in constructors (copied, never mutated, immutable for the scope's lifetime)."
+	c.Explanation += " Added by round 8: (O4 snapshot-copies-tags, shared with C11) Snapshot attaches a per-scope copy of the tag map."
 	c.NotDecided = []string{"string equality of delivered names for arbitrary derivation programs beyond what O1-O3 imply"}
 
 	scopeT := c.named("", "scope")
